@@ -1,7 +1,7 @@
 """Per-property job tables for ./check."""
 
-SETUP_FLAVOURS = ["debug", "release"]
-HOOK_COMMITS = ["7097985", "11c3a47", "f0bf0f9", "022e47b"]
+SETUP_FLAVOURS = ["debug", "release", "asan"]
+HOOK_COMMITS = ["7097985", "11c3a47", "f0bf0f9", "022e47b", "ab4a121"]
 SETUP_EXTRAS = ["roto-bin", "cli-host"]
 NOT_YET = {}
 
@@ -400,5 +400,60 @@ PROPS = {
                         "the numeric and address spellings"],
         "min_tags": 30,
         "budget": {"quick": 240, "thorough": 1500},
+    },
+    "C11": {
+        "claim": "History monitor with an ownership model: histories of {new runtime, compile, get/clone/call/drop handle, drop "
+                 "package, drop runtime, drop a handle on another thread} are executed against the real API; after every "
+                 "step every surviving handle is called and compared, and the set of live drop-tracked instances (script "
+                 "constants, registered constants, closure captures) must equal what a 40-line ownership model predicts. The "
+                 "same histories run under AddressSanitizer, which turns a call into freed code or constant storage into a "
+                 "deterministic report.",
+        "design_ref": "DESIGN.md §4 C11",
+        "level_note": "ALL well-formed histories up to length 4 (quick) / 6 (thorough) from a seeded start state (one runtime, "
+                      "package and handle) plus random histories of 8-60 steps; object choices are oldest/newest.",
+        "technique": "exhaustive short + random long drop-order histories checked by an ownership model, drop ledger and ASan",
+        "rule": "case < N: one enumerated history over 13 operations (object choice oldest/newest, at most 3 runtimes and 4 "
+                "script versions) of length <= 4 (6 thorough); remaining cases: random histories; evaluations = operations "
+                "executed; events = handle calls and live-set comparisons; non-trivial = at least one operation",
+        "jobs": [
+            {"family": "lifetimes", "flavour": "release", "cases": {"quick": 0, "thorough": 0}},
+            {"family": "lifetimes", "flavour": "debug", "cases": {"quick": 1200, "thorough": 20000}, "args": {"stream": "debug"}},
+            {"family": "lifetimes", "flavour": "asan", "cases": {"quick": 1500, "thorough": 40000}, "args": {"stream": "asan"},
+             "env": {"ASAN_OPTIONS": "detect_leaks=0:halt_on_error=1:abort_on_error=1"}, "case_timeout": 120},
+        ],
+        "exhaustive": False,
+        "assumptions": ["the ownership model: constants of a script belong to its package and every handle of it; registered "
+                        "constants and closure captures belong to the runtime and to everything compiled from it"],
+        "min_tags": 10,
+        "budget": {"quick": 400, "thorough": 2400},
+    },
+    "C12": {
+        "claim": "Concurrency stress monitor: one handle is cloned into 2-16 threads that call it on several input vectors "
+                 "while other threads compile fresh scripts (registering types and interning symbols concurrently) and call "
+                 "and drop the resulting packages; every concurrent result and host-call log must equal the single-threaded "
+                 "one and the global drop ledger must balance. Compile-and-run probes check that safe Rust cannot register "
+                 "non-thread-safe state (rustc rejects them, or they are run and must not race); a ThreadSanitizer build "
+                 "of the same workload (thorough tier) reports host-side data races.",
+        "design_ref": "DESIGN.md §4 C12",
+        "level_note": "Schedules are whatever the OS produces under load (sampled, uncontrolled); JIT code is not "
+                      "TSan-instrumented; the Send-but-not-Sync types are sampled by four probes.",
+        "technique": "multi-threaded stress with result/log/ledger oracles + rustc accept/reject probes + ThreadSanitizer",
+        "rule": "case = one generated program (scalar, aggregate, ownership or effects profile), up to 4 input vectors on which "
+                "it runs to completion, 2/4/8/16 threads x >= 150 (400 thorough) calls each, in half of the cases with 2 "
+                "compiling threads and a dropper in the background; non-trivial = at least one concurrent call compared",
+        "jobs": [
+            {"family": "concurrent", "flavour": "release", "cases": {"quick": 600, "thorough": 12000}, "shards": 4,
+             "case_timeout": 120},
+            {"family": "concurrent", "flavour": "debug", "cases": {"quick": 100, "thorough": 1000}, "shards": 4,
+             "args": {"stream": "debug"}, "case_timeout": 180},
+            {"kind": "probe", "family": "sync-probes"},
+            {"family": "concurrent", "flavour": "tsan", "cases": {"quick": 60, "thorough": 600}, "shards": 4,
+             "args": {"stream": "tsan"}, "tiers": ["thorough"], "case_timeout": 300,
+             "env": {"TSAN_OPTIONS": "halt_on_error=1:exitcode=66"}},
+        ],
+        "assumptions": ["the single-threaded execution of the same handle is the reference"],
+        "min_tags": 40,
+        "min_cases": {"quick": 100, "thorough": 100},
+        "budget": {"quick": 400, "thorough": 2400},
     },
 }
